@@ -240,35 +240,45 @@ Lemma cref_charref e p hex ds more : W p (T.r_piece (T.PCharRef hex ds) ++ more)
 Proof.
   intros HW Hwf He Hle. unfold T.wf_charref in Hwf. rewrite !andb_true_iff in Hwf.
   destruct Hwf as [[Hne Hd] Hc]. destruct (xml_Char_model _ Hc) as (Hs & Hcc & Hmax).
-  cbn [T.r_piece] in *. rewrite <- !app_assoc in *. cbn [app] in HW |- *.
   assert (Hd0 : exists x r, ds = x :: r /\ T.is_digit hex x = true).
   { destruct ds as [|x r]; [discriminate|]. cbn [forallb] in Hd. apply andb_true_iff in Hd. eexists. eexists. split; [reflexivity|apply Hd]. }
   destruct Hd0 as (x0 & r0 & Eds & Hx0).
+  pose proof (digit_filter hex ds Hd) as Hflt. pose proof (digits_val_ref hex ds 0 Hd) as Hval.
+  fold (T.ref_val hex ds) in Hval.
   unfold consume_reference.
-  assert (Lall : p + 2 + blen (if hex then [120] else []) + blen ds + 1 <= e).
-  { rewrite !blen_app, !blen_cons, blen_nil in He. clear - He. generalize dependent (blen (if hex then [120] else [])). intros; lia. }
-  rewrite try_yes by lia. rewrite try_yes by lia. cbn [negb].
-  pose proof (W_cons _ _ _ _ (W_cons _ _ _ _ HW)) as HW2.
-  replace (p + 1 + 1) with (p + 2) in * by lia.
-  set (ph := p + 2 + blen (if hex then [120] else [])).
-  assert (Etry : try_consume_byte 120 (sst e (p + 2) ((if hex then [120] else []) ++ ds ++ 59 :: more)) =
-                 (hex, sst e ph (ds ++ 59 :: more))).
-  { unfold ph. destruct hex; cbn [app].
-    - rewrite try_yes by (rewrite blen_cons, blen_nil in Lall; lia). reflexivity.
-    - rewrite Eds. cbn [app]. rewrite try_no; [rewrite blen_nil, N.add_0_r; reflexivity|]. tcls. cbn in Hx0. lia. }
-  rewrite Etry.
-  pose proof (W_app _ _ _ _ HW2) as HW3. fold ph in HW3.
-  unfold consume_bytes.
-  rewrite skip_bytes_sst; [|apply digit_filter; exact Hd| |unfold ph; lia].
-  2:{ cbn [stops]. destruct hex; reflexivity. }
-  unfold slice_back. cbn [sst s_pos].
-  rewrite (mk_slice_ok text Hascii) by (unfold ph in *; lia). cbn [bind].
-  rewrite (W_slice _ _ _ _ HW3). rewrite Eds at 1. rewrite <- Eds.
-  rewrite digits_val_ref by exact Hd. fold (T.ref_val hex ds).
-  replace (u32_max <? T.ref_val hex ds) with false by (unfold u32_max; lia).
-  rewrite Hs, Hcc. cbn [negb].
-  rewrite consume_byte_sst by (unfold ph; lia). cbn [bind].
-  f_equal. f_equal. f_equal. f_equal. unfold ph. rewrite !blen_app, !blen_cons, blen_nil. lia.
+  destruct hex; cbn [T.r_piece app] in *; rewrite <- ?app_assoc in *; cbn [app] in *;
+    repeat rewrite ?blen_app, ?blen_cons, ?blen_nil in He.
+  - rewrite try_yes by lia. rewrite try_yes by lia. cbn [negb]. rewrite try_yes by lia.
+    pose proof (W_cons _ _ _ _ (W_cons _ _ _ _ (W_cons _ _ _ _ HW))) as HW3.
+    unfold consume_bytes.
+    rewrite skip_bytes_sst; [|exact Hflt|reflexivity|lia].
+    unfold slice_back. cbn [sst s_pos].
+    rewrite (mk_slice_ok text Hascii) by lia. cbn [bind].
+    rewrite (W_slice _ _ _ _ HW3). rewrite Hval.
+    replace (u32_max <? T.ref_val true ds) with false by (unfold u32_max; lia).
+    rewrite Hs, Hcc. cbn [negb].
+    replace (match ds with [] => @Ok (option (reference * stream)) None | _ :: _ => Ok (Some (RefChar (T.ref_val true ds), sst e (p + 1 + 1 + 1 + blen ds) (59 :: more))) end)
+      with (@Ok (option (reference * stream)) (Some (RefChar (T.ref_val true ds), sst e (p + 1 + 1 + 1 + blen ds) (59 :: more))))
+      by (destruct ds; [discriminate Hne|reflexivity]).
+    cbn [bind]. rewrite consume_byte_sst by lia.
+    f_equal. f_equal. f_equal. f_equal. rewrite !blen_cons, blen_app, blen_cons, blen_nil. lia.
+  - rewrite try_yes by lia. rewrite try_yes by lia. cbn [negb].
+    replace (try_consume_byte 120 (sst e (p + 1 + 1) (ds ++ 59 :: more)))
+      with (false, sst e (p + 1 + 1) (ds ++ 59 :: more))
+      by (rewrite Eds; cbn [app]; symmetry; apply try_no; unfold T.is_digit in Hx0; lia).
+    pose proof (W_cons _ _ _ _ (W_cons _ _ _ _ HW)) as HW3.
+    unfold consume_bytes.
+    rewrite skip_bytes_sst; [|exact Hflt|reflexivity|lia].
+    unfold slice_back. cbn [sst s_pos].
+    rewrite (mk_slice_ok text Hascii) by lia. cbn [bind].
+    rewrite (W_slice _ _ _ _ HW3). rewrite Hval.
+    replace (u32_max <? T.ref_val false ds) with false by (unfold u32_max; lia).
+    rewrite Hs, Hcc. cbn [negb].
+    replace (match ds with [] => @Ok (option (reference * stream)) None | _ :: _ => Ok (Some (RefChar (T.ref_val false ds), sst e (p + 1 + 1 + blen ds) (59 :: more))) end)
+      with (@Ok (option (reference * stream)) (Some (RefChar (T.ref_val false ds), sst e (p + 1 + 1 + blen ds) (59 :: more))))
+      by (destruct ds; [discriminate Hne|reflexivity]).
+    cbn [bind]. rewrite consume_byte_sst by lia.
+    f_equal. f_equal. f_equal. f_equal. rewrite !blen_cons, blen_app, blen_cons, blen_nil. lia.
 Qed.
 
 Lemma utf8_encode c : T.utf8 c = encode_utf8 c.
@@ -322,10 +332,12 @@ Proof.
     rewrite blen_app in He.
     assert (IH' : reads text es (sst e (p + blen (T.r_piece pc)) (T.r_pieces ps ++ more)) (flat_map T.piece_chunks ps)).
     { apply IH; [apply (W_app _ _ _ _ HW)|exact Hps|lia|exact Hle]. }
+    destruct (r_piece_ne q pc Hp) as (x1 & r1 & Ex1).
+    assert (Hlt : p < e) by (rewrite Ex1, blen_cons in He; lia). clear x1 r1 Ex1.
     destruct pc as [bs|hex ds|pe|bs]; cbn [T.wf_vpiece] in Hp; try discriminate.
     + (* literal bytes, one by one *)
       apply lit_not_amp in Hp. cbn [T.r_piece T.piece_chunks] in *.
-      clear IH Hps. revert p HW He IH'. induction bs as [|x bs IHb]; intros p HW He IH'.
+      clear IH Hps Hlt. revert p HW He IH'. induction bs as [|x bs IHb]; intros p HW He IH'.
       * cbn [map app] in *. rewrite blen_nil, N.add_0_r in IH'. exact IH'.
       * cbn [forallb] in Hp. apply andb_true_iff in Hp. destruct Hp as [Hx Hb].
         cbn [map app] in *. rewrite blen_cons in *.
@@ -337,14 +349,392 @@ Proof.
     + cbn [T.piece_chunks app]. rewrite utf8_encode.
       pose proof (cref_charref e p hex ds (T.r_pieces ps ++ more) HW Hp ltac:(lia) Hle) as E.
       cbn [T.r_piece] in E, HW, He, IH' |- *. rewrite <- !app_assoc in *. cbn [app] in E |- *.
-      eapply reads_char; [rewrite at_end_sst; rewrite !blen_cons in He; lia| |exact IH'].
-      apply pnc_ref; [rewrite !blen_cons in He; lia|exact E].
+      eapply reads_char; [rewrite at_end_sst; lia| |exact IH'].
+      apply pnc_ref; [exact Hlt|exact E].
     + cbn [T.piece_chunks app].
-      change [T.predef_char pe] with (encode_utf8 (T.predef_char pe)) by (destruct pe; reflexivity).
+      replace [T.predef_char pe] with (encode_utf8 (T.predef_char pe)) by (destruct pe; reflexivity).
       pose proof (cref_predef e p pe (T.r_pieces ps ++ more) HW ltac:(lia) Hle) as E.
       cbn [T.r_piece] in E, HW, He, IH' |- *. rewrite <- !app_assoc in *. cbn [app] in E |- *.
-      eapply reads_char; [rewrite at_end_sst; rewrite !blen_cons in He; lia| |exact IH'].
-      apply pnc_ref; [rewrite !blen_cons in He; lia|exact E].
+      eapply reads_char; [rewrite at_end_sst; lia| |exact IH'].
+      apply pnc_ref; [exact Hlt|exact E].
+Qed.
+
+
+(* the same for an attribute value: what the loop of [norm_attr_lvl] reads at the top level *)
+Lemma areads_pieces q e : q = 39 \/ q = 34 \/ q = 60 -> forall ps p more,
+  W p (T.r_pieces ps ++ more) -> forallb (T.wf_vpiece q) ps = true ->
+  p + blen (T.r_pieces ps) = e -> e <= tlen text ->
+  areads text false (sst e p (T.r_pieces ps ++ more)) (flat_map T.piece_chunks ps).
+Proof.
+  intros Hq. induction ps as [|pc ps IH]; intros p more HW Hwf He Hle.
+  - cbn [T.r_pieces flat_map app] in *. rewrite blen_nil in He. apply areads_end.
+    rewrite at_end_sst. lia.
+  - cbn [forallb] in Hwf. apply andb_true_iff in Hwf. destruct Hwf as [Hp Hps].
+    cbn [T.r_pieces flat_map] in *. fold (T.r_pieces ps) in *. rewrite <- app_assoc in *.
+    rewrite blen_app in He.
+    assert (IH' : areads text false (sst e (p + blen (T.r_piece pc)) (T.r_pieces ps ++ more)) (flat_map T.piece_chunks ps)).
+    { apply IH; [apply (W_app _ _ _ _ HW)|exact Hps|lia|exact Hle]. }
+    destruct (r_piece_ne q pc Hp) as (x1 & r1 & Ex1).
+    assert (Hlt : p < e) by (rewrite Ex1, blen_cons in He; lia). clear x1 r1 Ex1.
+    destruct pc as [bs|hex ds|pe|bs]; cbn [T.wf_vpiece] in Hp; try discriminate.
+    + apply lit_not_amp in Hp. cbn [T.r_piece T.piece_chunks] in *.
+      clear IH Hps Hlt. revert p HW He IH'. induction bs as [|x bs IHb]; intros p HW He IH'.
+      * cbn [map app] in *. rewrite blen_nil, N.add_0_r in IH'. exact IH'.
+      * cbn [forallb] in Hp. apply andb_true_iff in Hp. destruct Hp as [Hx Hb].
+        cbn [map app] in *. rewrite blen_cons in *.
+        eapply areads_byte.
+        -- rewrite at_end_sst. lia.
+        -- reflexivity.
+        -- lia.
+        -- apply andb_false_r.
+        -- apply advance1_sst. lia.
+        -- apply IHb; [exact Hb|apply (W_cons _ _ _ _ HW)|lia|].
+           replace (p + 1 + blen bs) with (p + (1 + blen bs)) by lia. exact IH'.
+    + cbn [T.piece_chunks app]. rewrite utf8_encode.
+      pose proof (cref_charref e p hex ds (T.r_pieces ps ++ more) HW Hp ltac:(lia) Hle) as E.
+      cbn [T.r_piece] in E, HW, He, IH' |- *. rewrite <- !app_assoc in *. cbn [app] in E |- *.
+      eapply areads_char; [rewrite at_end_sst; lia|reflexivity|exact E|exact IH'].
+    + cbn [T.piece_chunks app].
+      replace [T.predef_char pe] with (encode_utf8 (T.predef_char pe)) by (destruct pe; reflexivity).
+      pose proof (cref_predef e p pe (T.r_pieces ps ++ more) HW ltac:(lia) Hle) as E.
+      cbn [T.r_piece] in E, HW, He, IH' |- *. rewrite <- !app_assoc in *. cbn [app] in E |- *.
+      eapply areads_char; [rewrite at_end_sst; lia|reflexivity|exact E|exact IH'].
+Qed.
+
+(* chunks are not more numerous than the bytes they are read from *)
+Lemma chunks_le_bytes q : forall ps, forallb (T.wf_vpiece q) ps = true ->
+  (length (flat_map T.piece_chunks ps) <= length (T.r_pieces ps))%nat.
+Proof.
+  induction ps as [|pc ps IH]; intros H; [cbn; lia|]. cbn [forallb] in H. apply andb_true_iff in H.
+  destruct H as [H1 H2]. cbn [flat_map T.r_pieces]. rewrite !app_length. specialize (IH H2).
+  unfold T.r_pieces in IH.
+  destruct pc as [bs|hex ds|pe|bs]; cbn [T.piece_chunks T.r_piece]; try discriminate;
+    rewrite ?map_length, ?app_length; cbn [length]; lia.
+Qed.
+
+(* ------------------------------------------------------------------------------------------ *)
+(* "]]>" does not arise in a stretch of literal and reference pieces                          *)
+(* ------------------------------------------------------------------------------------------ *)
+
+Definition n3 : bytes := [93; 93; 62].
+
+Lemma contains_no93 : forall x y, forallb (fun c => negb (c =? 93)) x = true ->
+  contains_b n3 (x ++ y) = contains_b n3 y.
+Proof.
+  induction x as [|c x IH]; intros y H; [reflexivity|]. cbn [forallb] in H. apply andb_true_iff in H.
+  destruct H as [H1 H2]. cbn [app contains_b]. rewrite IH by exact H2.
+  unfold n3. cbn [prefix_b]. replace (93 =? c) with false by lia. reflexivity.
+Qed.
+
+Lemma contains_lit : forall bs y, contains_b n3 bs = false ->
+  match y with [] => True | c :: _ => c <> 93 /\ c <> 62 end ->
+  contains_b n3 (bs ++ y) = contains_b n3 y.
+Proof.
+  induction bs as [|c bs IH]; intros y H Hy; [reflexivity|].
+  cbn [contains_b] in H. apply orb_false_iff in H. destruct H as [H1 H2].
+  cbn [app contains_b]. rewrite IH by assumption.
+  replace (prefix_b n3 (c :: bs ++ y)) with false; [reflexivity|]. symmetry.
+  unfold n3 in *. destruct bs as [|d [|d2 bs]]; cbn [app prefix_b] in *.
+  - destruct y as [|y0 y]; [apply andb_false_r|]. destruct Hy. replace (93 =? y0) with false by lia.
+    rewrite andb_false_r. reflexivity.
+  - destruct y as [|y0 y]; [rewrite !andb_false_r; reflexivity|]. destruct Hy.
+    replace (62 =? y0) with false by lia. rewrite !andb_false_r. reflexivity.
+  - exact H1.
+Qed.
+
+Definition is_refp (p : T.piece) : bool := match p with T.PCharRef _ _ | T.PPredef _ => true | _ => false end.
+
+Lemma refp_no93 p : is_refp p = true -> T.wf_vpiece 60 p = true ->
+  forallb (fun c => negb (c =? 93)) (T.r_piece p) = true /\ exists r, T.r_piece p = 38 :: r.
+Proof.
+  intros Hr Hwf. split.
+  - pose proof (vpiece_bytes 60 p ltac:(auto) Hwf) as H.
+    destruct p as [bs|hex ds|e|bs]; try discriminate.
+    + cbn [T.r_piece T.wf_vpiece] in *. unfold T.wf_charref in Hwf. rewrite !andb_true_iff in Hwf.
+      destruct Hwf as [[_ Hd] _]. apply forallb_app'; [reflexivity|]. apply forallb_app'; [destruct hex; reflexivity|].
+      apply forallb_app'; [|reflexivity]. revert Hd. apply forallb_imp. intros x Hx. unfold T.is_digit in Hx. lia.
+    + destruct e; reflexivity.
+  - destruct p as [bs|hex ds|e|bs]; try discriminate; cbn [T.r_piece app]; eauto.
+Qed.
+
+Lemma stretch_no_cdata_end : forall ps, forallb T.wf_tpiece ps = true -> forallb no_cdata ps = true ->
+  T.no_adjacent_lit ps = true -> contains_b n3 (T.r_pieces ps) = false.
+Proof.
+  induction ps as [|pc ps IH]; intros Hwf Hnc Hadj; [reflexivity|].
+  cbn [forallb] in Hwf, Hnc. apply andb_true_iff in Hwf. destruct Hwf as [Hw1 Hw2].
+  apply andb_true_iff in Hnc. destruct Hnc as [Hn1 Hn2].
+  assert (Hadj2 : T.no_adjacent_lit ps = true).
+  { destruct ps as [|d r]; [reflexivity|]. cbn [T.no_adjacent_lit] in Hadj. apply andb_true_iff in Hadj. apply Hadj. }
+  cbn [T.r_pieces flat_map]. fold (T.r_pieces ps). specialize (IH Hw2 Hn2 Hadj2).
+  destruct pc as [bs|hex ds|e|bs]; try discriminate.
+  - cbn [T.r_piece T.wf_tpiece] in *. apply andb_true_iff in Hw1. destruct Hw1 as [_ Hc].
+    apply negb_true_iff in Hc. rewrite contains_eq in Hc.
+    rewrite contains_lit; [exact IH|exact Hc|].
+    destruct ps as [|d r]; [exact I|].
+    cbn [T.no_adjacent_lit T.is_lit andb] in Hadj. apply andb_true_iff in Hadj. destruct Hadj as [Hd _].
+    cbn [forallb] in Hw2, Hn2. apply andb_true_iff in Hw2. apply andb_true_iff in Hn2.
+    destruct (refp_no93 d) as [_ [r0 Er]].
+    { destruct d; try discriminate; try reflexivity. destruct Hn2; discriminate. }
+    { apply tpiece_vpiece; [apply Hw2|apply Hn2]. }
+    cbn [T.r_pieces flat_map]. rewrite Er. cbn [app]. split; lia.
+  - destruct (refp_no93 (T.PCharRef hex ds) eq_refl (tpiece_vpiece _ Hw1 eq_refl)) as [H93 _].
+    rewrite contains_no93 by exact H93. exact IH.
+  - destruct (refp_no93 (T.PPredef e) eq_refl (tpiece_vpiece _ Hw1 eq_refl)) as [H93 _].
+    rewrite contains_no93 by exact H93. exact IH.
+Qed.
+
+(* ------------------------------------------------------------------------------------------ *)
+(* the token parsers: text stretches, CDATA sections, start tags                              *)
+(* ------------------------------------------------------------------------------------------ *)
+
+Variable C : Type.
+Variable ev : Tokenizer.token -> C -> res C.
+Notation st := (CstLex.st text).
+
+Lemma tplain_walk : forall bs p post,
+  forallb (fun x => T.is_tplain x && negb (x =? 60)) bs = true -> walk_ok text text_f p bs post.
+Proof.
+  induction bs as [|c r IH]; intros p post H; cbn [walk_ok]; [exact I|].
+  cbn [forallb] in H. apply andb_true_iff in H. destruct H as [Hc H].
+  apply andb_true_iff in Hc. destruct Hc as [Hc H60].
+  destruct (tplain_char _ Hc) as (L & K & _).
+  split; [exact K|]. split; [exact H60|]. apply IH. exact H.
+Qed.
+
+Lemma lex_text' p bs post c : W p (bs ++ post) ->
+  forallb (fun x => T.is_tplain x && negb (x =? 60)) bs = true -> contains_b n3 bs = false -> text_stop post ->
+  parse_text text C ev (st p (bs ++ post)) c =
+  let! c' := ev (TText (sl p (p + blen bs)) (p, p + blen bs)) c in Ok (st (p + blen bs) post, c').
+Proof.
+  intros HW H1 H2 Hs. unfold parse_text. cbv zeta.
+  change (fun (_ : stream) (ch : N) => negb (ch =? 60)) with text_f.
+  rewrite (consume_chars_st text Hascii); [|exact HW|apply tplain_walk; exact H1|].
+  2:{ destruct post as [|x post]; cbn [walk_stop]; [exact I|]. cbn [text_stop] in Hs. subst x.
+      split; reflexivity. }
+  cbn [bind]. rewrite (W_slice _ _ _ _ HW). change (b "]]>") with n3. rewrite H2, andb_false_r.
+  reflexivity.
+Qed.
+
+Definition cdata_f (s : stream) (ch : N) : bool := negb ((ch =? 93) && starts_with s n3).
+
+Lemma cdata_walk : forall bs p post, W p (bs ++ n3 ++ post) ->
+  forallb T.is_tplain bs = true -> contains_b n3 bs = false ->
+  walk_ok text cdata_f p bs (n3 ++ post).
+Proof.
+  induction bs as [|c r IH]; intros p post HW H1 H2; cbn [walk_ok]; [exact I|].
+  cbn [forallb] in H1. apply andb_true_iff in H1. destruct H1 as [Hc H1].
+  destruct (tplain_char _ Hc) as (L & K & _).
+  cbn [contains_b] in H2. apply orb_false_iff in H2. destruct H2 as [H2 H2'].
+  split; [exact K|]. split.
+  - unfold cdata_f. rewrite (starts_with_st text) by exact HW.
+    destruct (c =? 93) eqn:E; [|reflexivity]. cbn [andb]. apply N.eqb_eq in E. subst c.
+    unfold n3 in *. destruct r as [|y [|z r]]; cbn [app prefix_b] in *.
+    + reflexivity.
+    + rewrite !N.eqb_refl. cbn [andb]. destruct (93 =? y); reflexivity.
+    + rewrite H2. reflexivity.
+  - apply IH; [apply (W_cons _ _ _ _ HW)|exact H1|exact H2'].
+Qed.
+
+Lemma lex_cdata p bs post c : W p (T.cdata_open ++ bs ++ n3 ++ post) ->
+  forallb T.is_tplain bs = true -> contains_b n3 bs = false ->
+  parse_cdata text C ev (st p (T.cdata_open ++ bs ++ n3 ++ post)) c =
+  let! c' := ev (TCdata (sl (p + 9) (p + 9 + blen bs)) (p, p + 9 + blen bs + 3)) c in
+  Ok (st (p + 9 + blen bs + 3) post, c').
+Proof.
+  intros HW H1 H2. unfold parse_cdata. cbv zeta.
+  rewrite (advance_st text 9 p T.cdata_open) by (try reflexivity; exact HW). cbn [bind].
+  pose proof (W_app _ _ _ _ HW) as HW1. change (blen T.cdata_open) with 9 in HW1.
+  change (b "]]>") with n3.
+  change (fun (s : stream) (ch : N) => negb ((ch =? 93) && starts_with s n3)) with cdata_f.
+  rewrite (consume_chars_st text Hascii); [|exact HW1|apply cdata_walk; assumption|].
+  2:{ cbn [walk_stop app n3]. split; [reflexivity|]. unfold cdata_f.
+      rewrite (starts_with_st text) by (apply (W_app _ _ _ _ HW1)). reflexivity. }
+  cbn [bind]. pose proof (W_app _ _ _ _ HW1) as HW2.
+  rewrite (skip_string_st text) by exact HW2. cbn [bind]. cbn [CstLex.st s_pos].
+  change (blen n3) with 3. reflexivity.
+Qed.
+
+(* ---- start tags with decoded attribute values ---- *)
+
+Definition vlen (a : T.attr) : N := blen (T.r_pieces (T.a_value a)).
+
+Definition attr_tok' (q : N) (a : T.attr) : Tokenizer.token :=
+  let start := q + blen (T.a_ws a) in
+  let ne := start + blen (T.a_name a) in
+  let eqe := ne + blen (T.a_ws1 a) + 1 + blen (T.a_ws2 a) in
+  let vs := eqe + 1 in
+  let ve := vs + vlen a in
+  TAttribute (start, ve + 1) (N.min (ne - start) qname_len_sat) (N.min (eqe - ne) eq_len_sat)
+             (sl start start) (sl start ne) (sl vs ve).
+
+Fixpoint attr_toks' (q : N) (attrs : list T.attr) : list Tokenizer.token :=
+  match attrs with
+  | [] => []
+  | a :: r => attr_tok' q a :: attr_toks' (q + blen (T.r_attr a)) r
+  end.
+
+Lemma wf_attr_parts' a : T.wf_attr a = true ->
+  T.a_ws a <> [] /\ Cst.wf_ws (T.a_ws a) = true /\ Cst.wf_name (T.a_name a) = true /\
+  Cst.wf_ws (T.a_ws1 a) = true /\ Cst.wf_ws (T.a_ws2 a) = true /\
+  (T.a_quote a = 39 \/ T.a_quote a = 34) /\
+  forallb (T.wf_vpiece (T.a_quote a)) (T.a_value a) = true /\ T.no_adjacent_lit (T.a_value a) = true.
+Proof.
+  unfold T.wf_attr, T.wf_value. rewrite !andb_true_iff. intros (((((H1 & H2) & H3) & H4) & H5) & (H6 & H7)).
+  repeat split; try assumption.
+  - unfold Cst.wf_ws1 in H1. destruct (T.a_ws a); [discriminate|discriminate].
+  - unfold Cst.wf_ws1 in H1. unfold Cst.wf_ws. destruct (T.a_ws a); [reflexivity|exact H1].
+  - lia.
+Qed.
+
+Lemma value_bytes_facts quote V : forallb (vbyte quote) V = true ->
+  forallb (fun y => negb ((y =? quote) || (y =? 60))) V = true /\
+  forallb (fun x => x <? 128) V = true /\ forallb byte_is_char V = true.
+Proof.
+  intros Hv. split; [|split].
+  - eapply forallb_imp; [|exact Hv]. intros x Hx. unfold vbyte in Hx. lia.
+  - eapply forallb_imp; [|exact Hv]. intros x Hx. unfold vbyte in Hx.
+    assert (Hp : T.is_tplain x = true) by lia. destruct (tplain_char _ Hp). lia.
+  - eapply forallb_imp; [|exact Hv]. intros x Hx. unfold vbyte in Hx.
+    assert (Hp : T.is_tplain x = true) by lia. apply (tplain_char _ Hp).
+Qed.
+
+Lemma lex_attr_iter' fuel ts q a more c : W q (T.r_attr a ++ more) -> T.wf_attr a = true ->
+  parse_element_loop text C ev (S fuel) ts (st q (T.r_attr a ++ more)) c =
+  let! c' := ev (attr_tok' q a) c in
+  parse_element_loop text C ev fuel ts (st (q + blen (T.r_attr a)) more) c'.
+Proof.
+  intros HW Hwf. destruct (wf_attr_parts' _ Hwf) as (Hne & Hws & Hn & Hw1 & Hw2 & Hq & Hv & _).
+  unfold attr_tok', vlen. cbv zeta.
+  assert (Elen : q + blen (T.r_attr a) = q + blen (T.a_ws a) + blen (T.a_name a) + blen (T.a_ws1 a) + 1
+                  + blen (T.a_ws2 a) + 1 + blen (T.r_pieces (T.a_value a)) + 1).
+  { clear. unfold T.r_attr. rewrite !blen_app, !blen_cons, blen_nil. lia. }
+  rewrite Elen. clear Elen.
+  pose proof (vpieces_bytes (T.a_quote a) (T.a_value a) ltac:(destruct Hq; auto) Hv) as HV.
+  unfold T.r_attr in *. rewrite <- !app_assoc in *. cbn [app] in *.
+  destruct a as [ws name ws1 ws2 quote pieces]. cbn [T.a_ws T.a_name T.a_ws1 T.a_ws2 T.a_quote T.a_value] in *.
+  set (value := T.r_pieces pieces) in *. clearbody value. clear Hv Hwf pieces.
+  destruct (value_bytes_facts _ _ HV) as (Hv1 & Hv2 & Hv3). clear HV.
+  assert (Hqq : (quote =? 39) || (quote =? 34) = true) by (clear - Hq; lia).
+  assert (Hqsp : byte_is_space quote = false) by (clear - Hq; destruct Hq as [-> | ->]; reflexivity).
+  clear Hq.
+  destruct ws as [|w ws]; [congruence|]. clear Hne.
+  destruct name as [|n name]; [discriminate|].
+  assert (Hn0 : Cst.is_name_start n = true).
+  { cbn [Cst.wf_name] in Hn. apply andb_true_iff in Hn. apply Hn. }
+  destruct (name_start_byte _ Hn0) as (_ & _ & Hnsp & Hn47 & Hn62 & _).
+  apply N.eqb_neq in Hn47, Hn62. clear Hn0.
+  assert (Hwsp : byte_is_space w = true).
+  { cbn [Cst.wf_ws forallb] in Hws. apply andb_true_iff in Hws. apply ws_space. apply Hws. }
+  cbn [parse_element_loop]. rewrite (at_end_st text) by exact HW. cbn [app].
+  unfold starts_with_space. rewrite (curr_byte_opt_st text) by exact HW.
+  rewrite Hwsp. cbv zeta.
+  change (w :: ws ++ ?l) with ((w :: ws) ++ l) in HW |- *.
+  rewrite (skip_spaces_st text); [|exact HW|apply ws_spaces; exact Hws|cbn [app stops]; exact Hnsp].
+  pose proof (W_app _ _ _ _ HW) as HW1. cbn [CstLex.st s_pos].
+  try match goal with |- context [ {| s_pos := ?a; s_end := tlen text; s_rest := ?r |} ] => fold (st a r) end.
+  cbn [app] in HW1 |- *.
+  rewrite (curr_byte_st text) by exact HW1. cbn [bind].
+  rewrite Hn47, Hn62.
+  change (n :: name ++ ?l) with ((n :: name) ++ l) in HW1 |- *.
+  rewrite (consume_qname_st text Hascii); [|exact HW1|exact Hn|].
+  2:{ apply ws_stop_name; [exact Hw1|]. cbn [name_stop]. apply not_name_byte_lit. auto. }
+  cbn [bind]. pose proof (W_app _ _ _ _ HW1) as HW2.
+  unfold consume_eq.
+  rewrite (skip_spaces_st text); [|exact HW2|apply ws_spaces; exact Hw1|reflexivity].
+  pose proof (W_app _ _ _ _ HW2) as HW3.
+  rewrite (consume_byte_st text) by exact HW3. cbn [bind].
+  pose proof (W_cons _ _ _ _ HW3) as HW4.
+  rewrite (skip_spaces_st text); [|exact HW4|apply ws_spaces; exact Hw2|cbn [stops]; exact Hqsp].
+  pose proof (W_app _ _ _ _ HW4) as HW5. cbn [CstLex.st s_pos].
+  try match goal with |- context [ {| s_pos := ?a; s_end := tlen text; s_rest := ?r |} ] => fold (st a r) end.
+  unfold consume_quote. rewrite (curr_byte_st text) by exact HW5. cbn [bind].
+  rewrite Hqq.
+  rewrite (advance1_st text) by exact HW5. cbn [bind].
+  pose proof (W_cons _ _ _ _ HW5) as HW6. cbn [CstLex.st s_pos].
+  try match goal with |- context [ {| s_pos := ?a; s_end := tlen text; s_rest := ?r |} ] => fold (st a r) end.
+  unfold advance_until2. rewrite (avail_st text) by exact HW6.
+  rewrite find_idx_run; [|exact Hv1|rewrite N.eqb_refl; reflexivity].
+  rewrite (advance_st text) by (try reflexivity; exact HW6). cbn [bind].
+  pose proof (W_app _ _ _ _ HW6) as HW7. unfold slice_back. cbn [CstLex.st s_pos].
+  pose proof (W_le _ _ _ HW7) as Hle7.
+  rewrite (mk_slice_ok text Hascii) by (clear - Hle7; lia). cbn [bind].
+  unfold is_xml_str. rewrite (W_slice _ _ _ _ HW6).
+  rewrite Hv2. rewrite is_xml_str_ascii_ok by exact Hv3.
+  cbn [bind].
+  try match goal with |- context [ {| s_pos := ?a; s_end := tlen text; s_rest := ?r |} ] => fold (st a r) end.
+  rewrite (consume_byte_st text) by exact HW7. cbn [bind]. cbn [CstLex.st s_pos].
+  reflexivity.
+Qed.
+
+Lemma lex_elem_loop' ts ws_end empty post : forall attrs q c fuel,
+  W q (flat_map T.r_attr attrs ++ ws_end ++ tag_tail empty ++ post) ->
+  forallb T.wf_attr attrs = true -> Cst.wf_ws ws_end = true -> (length attrs < fuel)%nat ->
+  parse_element_loop text C ev fuel ts (st q (flat_map T.r_attr attrs ++ ws_end ++ tag_tail empty ++ post)) c =
+  let q' := q + blen (flat_map T.r_attr attrs) + blen ws_end in
+  let! c1 := evs C ev (attr_toks' q attrs) c in
+  let! c2 := ev (end_tok q' empty) c1 in
+  Ok (negb empty, st (q' + blen (tag_tail empty)) post, c2).
+Proof.
+  induction attrs as [|a attrs IH]; intros q c fuel HW Ha Hws Hf; cbv zeta.
+  - cbn [flat_map app attr_toks' evs bind] in *. rewrite blen_nil, N.add_0_r.
+    destruct fuel as [|fu]; [cbn in Hf; lia|]. apply lex_elem_end; assumption.
+  - cbn [forallb] in Ha. apply andb_true_iff in Ha. destruct Ha as [Ha1 Ha2].
+    cbn [length] in Hf. destruct fuel as [|fu]; [lia|].
+    cbn [flat_map attr_toks' evs] in *. rewrite <- app_assoc in *.
+    rewrite lex_attr_iter' by assumption.
+    destruct (ev (attr_tok' q a) c) as [c'| | |]; cbn [bind]; try reflexivity.
+    rewrite IH; [|apply (W_app _ _ _ _ HW)|exact Ha2|exact Hws|lia]. cbv zeta.
+    rewrite blen_app. rewrite !N.add_assoc. reflexivity.
+Qed.
+
+Lemma flat_attr_len' attrs : (length attrs <= length (flat_map T.r_attr attrs))%nat.
+Proof.
+  induction attrs as [|a attrs IH]; cbn [flat_map length]; [lia|]. rewrite app_length.
+  unfold T.r_attr at 1. rewrite !app_length. cbn [length]. lia.
+Qed.
+
+Lemma attrs_name_stop' attrs ws_end empty post :
+  forallb T.wf_attr attrs = true -> Cst.wf_ws ws_end = true ->
+  name_stop (flat_map T.r_attr attrs ++ ws_end ++ tag_tail empty ++ post).
+Proof.
+  intros Ha Hws. destruct attrs as [|a attrs].
+  - cbn [flat_map app]. apply ws_stop_name; [exact Hws|]. destruct empty; cbn [tag_tail app name_stop];
+      apply not_name_byte_lit; auto.
+  - cbn [forallb] in Ha. apply andb_true_iff in Ha. destruct Ha as [Ha _].
+    destruct (wf_attr_parts' _ Ha) as (Hne & Hw & _). cbn [flat_map]. unfold T.r_attr.
+    destruct (T.a_ws a) as [|w ws]; [congruence|]. cbn [app name_stop].
+    cbn [Cst.wf_ws forallb] in Hw. apply andb_true_iff in Hw. apply ws_not_name_byte. apply Hw.
+Qed.
+
+Definition start_toks' (p : N) (name : bytes) (attrs : list T.attr) : list Tokenizer.token :=
+  TElementStart (sl (p + 1) (p + 1)) (sl (p + 1) (p + 1 + blen name)) p :: attr_toks' (p + 1 + blen name) attrs.
+
+Lemma lex_element' p name attrs ws_end empty post c :
+  W p ([60] ++ name ++ flat_map T.r_attr attrs ++ ws_end ++ tag_tail empty ++ post) ->
+  Cst.wf_name name = true -> forallb T.wf_attr attrs = true -> Cst.wf_ws ws_end = true ->
+  let q' := p + 1 + blen name + blen (flat_map T.r_attr attrs) + blen ws_end in
+  parse_element text C ev (st p ([60] ++ name ++ flat_map T.r_attr attrs ++ ws_end ++ tag_tail empty ++ post)) c =
+  let! c1 := evs C ev (start_toks' p name attrs) c in
+  let! c2 := ev (end_tok q' empty) c1 in
+  Ok (negb empty, st (q' + blen (tag_tail empty)) post, c2).
+Proof.
+  intros HW Hn Ha Hws q'. unfold parse_element. cbv zeta. cbn [CstLex.st s_pos].
+  fold (st p ([60] ++ name ++ flat_map T.r_attr attrs ++ ws_end ++ tag_tail empty ++ post)).
+  rewrite (advance_st text 1 p [60]) by (try reflexivity; exact HW). cbn [bind].
+  pose proof (W_app _ _ _ _ HW) as HW1. change (blen [60]) with 1 in HW1.
+  rewrite (consume_qname_st text Hascii); [|exact HW1|exact Hn|apply attrs_name_stop'; assumption]. cbn [bind].
+  unfold start_toks'. cbn [evs].
+  destruct (ev _ c) as [c0| | |]; cbn [bind]; try reflexivity.
+  pose proof (W_app _ _ _ _ HW1) as HW2.
+  rewrite lex_elem_loop'; [|exact HW2|exact Ha|exact Hws|].
+  2:{ cbn [CstLex.st s_rest]. rewrite app_length. pose proof (flat_attr_len' attrs). lia. }
+  reflexivity.
 Qed.
 
 End Sub.
+
+Print Assumptions reads_pieces.
+Print Assumptions areads_pieces.
+Print Assumptions lex_text'.
+Print Assumptions lex_cdata.
+Print Assumptions lex_element'.
